@@ -6,6 +6,7 @@ import re
 
 from ..errors import AnalysisError
 from ..model import src, walk_local, docstring_free
+from ..astutil import clone
 from .. import names as N
 from .. import facts as F
 from .. import guards as G
@@ -136,6 +137,65 @@ def _handler_reads(f):
     return ctxcalls, reads, writes
 
 
+
+def _repeated_literals(ctx, fi, text_node, conds=()):
+    """`'=' * E` inside the text of a barline, with E an integer expression over `len(ctx.EQUAL())`: the grammar writes one to
+    three EQUAL tokens (`EQUAL EQUAL?`, `====` lexes as several), so the piece is one of finitely many literals.  Returns None
+    (no such piece) or a function conds -> [(conds', text')] with the piece replaced consistently, one variant per count."""
+    def mults(n):
+        return [m for m in ast.walk(n) if isinstance(m, ast.BinOp) and isinstance(m.op, ast.Mult)
+                and any(isinstance(x, ast.Constant) and isinstance(x.value, str) for x in (m.left, m.right))]
+    ms = mults(text_node) + [m for c, _ in conds for m in mults(c)]
+    if not ms:
+        return None
+    keys = {src(m) for m in ms}
+    if len(keys) != 1:
+        return None
+    m0 = ms[0]
+    lit, cnt = (m0.left, m0.right) if isinstance(m0.left, ast.Constant) and isinstance(m0.left.value, str) else (m0.right, m0.left)
+    lens = {src(c) for c in ast.walk(cnt) if isinstance(c, ast.Call) and F.is_name(c.func, 'len')}
+    if len(lens) != 1 or not next(iter(lens)).startswith('len(ctx.'):
+        return None
+    len_src = next(iter(lens))
+    values = {}
+    for k in (1, 2, 3):
+        class _Sub(ast.NodeTransformer):
+            def visit_Call(self, c):
+                if src(c) == len_src:
+                    return ast.Constant(value=k)
+                return self.generic_visit(c)
+        ok, v = ctx.ce.try_eval(_Sub().visit(clone(cnt)), fi.module, fi.cls, {})
+        if not ok or not isinstance(v, int) or isinstance(v, bool):
+            return None
+        values[k] = lit.value * v
+    key = src(m0)
+
+    def variants(conds):
+        out = []
+        for k, text in sorted(values.items()):
+            class _Rep(ast.NodeTransformer):
+                def visit_BinOp(self, b):
+                    if src(b) == key:
+                        return ast.Constant(value=text)
+                    return self.generic_visit(b)
+            fold = lambda n: _fold_str_concat(_Rep().visit(clone(n)))
+            out.append(([(fold(c), t) for c, t in conds], fold(text_node)))
+        return out
+    return variants
+
+
+def _fold_str_concat(node):
+    """'a' + 'b' -> 'ab' inside a concatenation (after a repeated literal was replaced by its value)."""
+    class _F(ast.NodeTransformer):
+        def visit_BinOp(self, b):
+            b = self.generic_visit(b)
+            if isinstance(b.op, ast.Add) and isinstance(b.left, ast.Constant) and isinstance(b.right, ast.Constant) \
+                    and isinstance(b.left.value, str) and isinstance(b.right.value, str):
+                return ast.Constant(value=b.left.value + b.right.value)
+            return b
+    return ast.fix_missing_locations(_F().visit(node))
+
+
 def r2_components(ctx, g, handlers):
     base = ctx.prog.cls(LST)
 
@@ -233,6 +293,7 @@ def r2_components(ctx, g, handlers):
         seq = g.sequence_rules('barline')
         eq_mandatory = bool(seq) and seq[0][0] == 'EQUAL' and seq[0][1] in ('', '+')
         bad_lits, n_tok = set(), 0
+        variants = []
         for sp in symex.func_sym_paths(eb0):
             tests = {src(n_): t for n_, t in sp.conds}
             if eq_mandatory and (tests.get('ctx.EQUAL(0)') is False or F.forced(sp.condition(), 'ctx.EQUAL(0)', False)):
@@ -243,6 +304,15 @@ def r2_components(ctx, g, handlers):
                 continue
             # `TABLE.get(text, text)` with a constant table is the chain `v1 if text == k1 else ... else text`
             a0 = F.joined_text(sp, made[-1].args[0])
+            reps = _repeated_literals(ctx, eb0, a0, sp.conds)
+            if reps:
+                # `'=' * f(len(ctx.EQUAL()))`: one variant per count the grammar allows (1..3), the same count in the text and in
+                # every test of the path
+                for variant_conds, variant_text in reps(list(sp.conds)):
+                    variants.append((sp, variant_conds, variant_text))
+                continue
+            variants.append((sp, list(sp.conds), a0))
+        for sp, sp_conds, a0 in variants:
             alts = [([], a0)]
             if isinstance(a0, ast.Call) and isinstance(a0.func, ast.Attribute) and a0.func.attr == 'get' and len(a0.args) == 2 and not a0.keywords:
                 ok_t, table = ctx.ce.try_eval(a0.func.value, eb0.module, eb0.cls, {})
@@ -255,7 +325,7 @@ def r2_components(ctx, g, handlers):
                 parts = F.text_parts(text_node)
                 # a comparison of the assembled text with a spelling that cannot match its literal beginning is decided
                 feasible = True
-                for n_, t in list(sp.conds) + extra:
+                for n_, t in list(sp_conds) + extra:
                     if isinstance(n_, ast.Compare) and len(n_.ops) == 1 and isinstance(n_.ops[0], (ast.Eq, ast.NotEq)) \
                             and isinstance(n_.comparators[0], ast.Constant) and isinstance(n_.comparators[0].value, str):
                         lp = F.text_parts(n_.left)
